@@ -58,3 +58,8 @@ CLAIMED['C01'] = dict(
 CLAIMED['C20'] = dict(
     text='Proof for the routes under contract (NumPy so far): the byte strings fed to the hash object are exactly the real inlines of the source, each once, in trace order, for all shapes and settings.',
     note='AX-SHA1 (incl. collision resistance); write_hash patch / accessor / re-blocker copy not yet under contract')
+CLAIMED['C11'] = dict(
+    text='Proof per function (modular): window acceptance in SeismicFileConverter.__init__ (0 is a bound), header-array sizing, make_header window words, io_thread_func '
+         '(window samples + header capture; unrolled per inline block extent 4/8[/16]), seismic_file_producer (layout agreement for the window shape, hash of the window rows) -- '
+         'all cube shapes and all windows. Glue in run()/run_conversion_loop and the CLI are not under contract.',
+    note='AX-SEGYIO-R handle model; reduce_iops falls back to segyio for windows (fix 7a327a8); composition by modularity')
